@@ -21,7 +21,7 @@ def run(tier):
     rep.rule('R18.e.3', 'after such a Reset nothing transmitted and no decision depends on pre-Reset (post-fault) state: behaviour equals a freshly started responder', floor=20)
     rep.rule('R18.d', 'constructors: an allocation failure yields NULL (or a usable automaton without its optional block), never a dereference, never a leak', floor=6)
     rep.rule('R18.f', 'diagnostics on fault paths: every printf-like call has a literal format whose conversions match its arguments', floor=40)
-    res = safety.run_all(kinds=['frame.mtu', 'frame.fallback', 'ctors', 'api'] + ['tick:%d:%d' % (m, e) for m in range(3) for e in range(3)])
+    res = safety.run_all(kinds=['frame.mtu', 'frame.fallback', 'ctors', 'api', 'automata'] + ['tick:%d:%d' % (m, e) for m in range(3) for e in range(3)])
     for entry, r in sorted(res.items()):
         rule = 'R18.c' if entry == 'frame.fallback' else 'R18.a'
         for o in r['obs']:
